@@ -185,60 +185,80 @@ def run(ch, config, res):
     if verdict == "forced-no":
         srv.fault_hook = lambda conn, dec, scope: (F_NO if (not isinstance(dec, str) and dec.verb == b"AUTHENTICATE") else None)
     failure = None
-    with world:
-        client = world.new_client()
-        with ch.scope("op#0"):
+
+    def attempt(client, scope, announced):
+        """One connect() and its oracle; returns Failure | None."""
+        nseen = len(srv.sasl_seen)
+        nviol = len(srv.violations)
+        creds_problem[0] = None
+        with ch.scope(scope):
             o = world.call(client, "connect", login, password, authz_id=authz, authmech=authmech)
-        seen = srv.sasl_seen
+        seen = srv.sasl_seen[nseen:]
         exp = expected_mech(announced, authmech)
-        sent_auth = [r for r in srv.log if r.verb == b"AUTHENTICATE"]
-        label = "connect(%r, %r, authz_id=%r, authmech=%r) against SASL %r" % (login, password, authz, authmech, announced)
-        viol = [x for x in srv.violations]
+        sent_auth = [r for r in srv.log if r.verb == b"AUTHENTICATE" and r.call_id == o.call_id]
+        label = "%s connect(%r, %r, authz_id=%r, authmech=%r) against SASL %r" % (scope, login, password, authz, authmech, announced)
+        viol = srv.violations[nviol:]
         accepted = any(s.get("accepted") for s in seen)
         if o.kind == "exc" and o.exc_type != "Error":
-            failure = Failure(PROP, "C16.exception", "%s raised %s(%r)" % (label, o.exc_type, o.exc_msg), {})
-        elif o.kind == "hang":
-            failure = Failure(PROP, "C16.exception", "%s never returned (%s)" % (label, o.exc_msg), {})
-        elif len(sent_auth) > 1:
-            failure = Failure(PROP, "C16.mech", "%s sent %d AUTHENTICATE commands (%r)" % (
+            return Failure(PROP, "C16.exception", "%s raised %s(%r)" % (label, o.exc_type, o.exc_msg), {})
+        if o.kind == "hang":
+            return Failure(PROP, "C16.exception", "%s never returned (%s)" % (label, o.exc_msg), {})
+        if len(sent_auth) > 1:
+            return Failure(PROP, "C16.mech", "%s sent %d AUTHENTICATE commands (%r)" % (
                 label, len(sent_auth), [s["mech"] for s in seen]), {})
-        elif not sent_auth:
+        if not sent_auth:
             if None not in exp:
-                failure = Failure(PROP, "C16.mech", "%s sent no AUTHENTICATE although %r qualifies" % (label, sorted(x for x in exp if x)), {})
-            elif any(b"AUTHENTICATE" in w[3].upper() for w in o.writes):
-                failure = Failure(PROP, "C16.sent-when-none-qualifies", "%s wrote %r" % (label, [w[3] for w in o.writes]), {})
-            elif o.kind == "ret" and o.value is True:
-                failure = Failure(PROP, "C16.result", "%s returned True without authenticating" % label, {})
+                return Failure(PROP, "C16.mech", "%s sent no AUTHENTICATE although %r qualifies" % (label, sorted(x for x in exp if x)), {})
+            if any(b"AUTHENTICATE" in w[3].upper() for w in o.writes):
+                return Failure(PROP, "C16.sent-when-none-qualifies", "%s wrote %r" % (label, [w[3] for w in o.writes]), {})
+            if o.kind == "ret" and o.value is True:
+                return Failure(PROP, "C16.result", "%s returned True without authenticating" % label, {})
+            if bool(getattr(client, "authenticated", False)):
+                return Failure(PROP, "C16.result", "%s: client.authenticated is True although nothing was sent" % label, {})
+            return None
+        if seen:
+            s = seen[0]
         else:
-            if seen:
-                s = seen[0]
-            else:
-                # refused before the exchange started (forced NO): only the mechanism is known
-                mname = sent_auth[0].args[0].decode("utf-8", "replace").upper()
-                s = {"mech": mname, "unannounced": announced is None or mname not in announced}
-            if s.get("unannounced"):
-                failure = Failure(PROP, "C16.unannounced" if exp != {None} else "C16.sent-when-none-qualifies",
-                                  "%s used %s, which the server did not announce" % (label, s["mech"]), {})
-            elif s["mech"] not in exp:
-                clause = "C16.sent-when-none-qualifies" if exp == {None} else "C16.mech"
-                failure = Failure(PROP, clause, "%s used %s; the rule prescribes %r" % (label, s["mech"], sorted(str(x) for x in exp)), {})
-            elif creds_problem[0]:
-                failure = Failure(PROP, "C16.creds", "%s: %s" % (label, creds_problem[0]), {})
-            elif viol:
-                failure = Failure(PROP, "C16.creds", "%s: the server could not decode the exchange: %s %r" % (label, viol[0][2], viol[0][3]), {})
-            elif o.kind == "ret" and (o.value is True) != accepted:
-                failure = Failure(PROP, "C16.result", "%s returned %r but the server %s" % (
-                    label, o.value, "accepted" if accepted else "refused"), {})
-            elif o.kind == "exc" and accepted:
-                failure = Failure(PROP, "C16.result", "%s raised %s(%r) although the server accepted" % (label, o.exc_type, o.exc_msg), {})
-            elif verdict == "accept" and s.get("accepted") is None and seen:
-                failure = Failure(PROP, "C16.result", "%s: the server was willing to accept but the client abandoned the exchange after %d step(s): %r" % (
-                    label, s.get("steps", 0), o), {})
-            elif bool(getattr(client, "authenticated", accepted)) != accepted:
-                failure = Failure(PROP, "C16.result", "%s: client.authenticated=%r but the server %s" % (
-                    label, client.authenticated, "accepted" if accepted else "refused"), {})
-            if failure is None:
-                res.count("mech:" + s["mech"])
+            # refused before the exchange started (forced NO): only the mechanism is known
+            mname = sent_auth[0].args[0].decode("utf-8", "replace").upper()
+            s = {"mech": mname, "unannounced": announced is None or mname not in announced}
+        if s.get("unannounced"):
+            return Failure(PROP, "C16.unannounced" if exp != {None} else "C16.sent-when-none-qualifies",
+                           "%s used %s, which the server did not announce" % (label, s["mech"]), {})
+        if s["mech"] not in exp:
+            clause = "C16.sent-when-none-qualifies" if exp == {None} else "C16.mech"
+            return Failure(PROP, clause, "%s used %s; the rule prescribes %r" % (label, s["mech"], sorted(str(x) for x in exp)), {})
+        if creds_problem[0]:
+            return Failure(PROP, "C16.creds", "%s: %s" % (label, creds_problem[0]), {})
+        if viol:
+            return Failure(PROP, "C16.creds", "%s: the server could not decode the exchange: %s %r" % (label, viol[0][2], viol[0][3]), {})
+        if o.kind == "ret" and (o.value is True) != accepted:
+            return Failure(PROP, "C16.result", "%s returned %r but the server %s" % (
+                label, o.value, "accepted" if accepted else "refused"), {})
+        if o.kind == "exc" and accepted:
+            return Failure(PROP, "C16.result", "%s raised %s(%r) although the server accepted" % (label, o.exc_type, o.exc_msg), {})
+        if verdict == "accept" and s.get("accepted") is None and seen:
+            return Failure(PROP, "C16.result", "%s: the server was willing to accept but the client abandoned the exchange after %d step(s): %r" % (
+                label, s.get("steps", 0), o), {})
+        if bool(getattr(client, "authenticated", accepted)) != accepted:
+            return Failure(PROP, "C16.result", "%s: client.authenticated=%r but the server %s" % (
+                label, client.authenticated, "accepted" if accepted else "refused"), {})
+        res.count("mech:" + s["mech"])
+        return None
+
+    with world:
+        client = world.new_client()
+        failure = attempt(client, "op#0", announced)
+        if failure is None:
+            # a second connection from the same object to a server that now announces something else: nothing learnt
+            # from the first connection may leak into the second
+            with ch.scope("second"):
+                again = wl.flag("again", 1, 2)
+                a2 = wl.int("announced2", len(al))
+            if again:
+                cfg.sasl_pre = al[a2]
+                failure = attempt(client, "op#1", al[a2])
+                res.count("second_connects")
     res.digest = world.digest()
     res.sim_time = world.clock.now
     cl = classes_of([login, password, authz])
